@@ -178,6 +178,30 @@ class Cgen:
             reach.add(b); todo += succ.get(b, [])
         return reach
 
+    def rpo_blocks(s, f, reach):
+        """blocks in reverse post-order, so that the only textually backward gotos are real loop back-edges
+        (cbmc treats every backward goto as a loop to unwind)"""
+        succ = {}
+        for bn, ins in f.blocks:
+            succ[bn] = []
+            if bn not in reach or s.block_cut(ins): continue
+            for I in ins:
+                if I.op == 'br': succ[bn] += [I.t] + ([I.f] if I.f else [])
+                elif I.op == 'switch': succ[bn] += [I.dflt] + [t for _, t in I.cases]
+                elif I.op == 'invoke': succ[bn] += [I.normal, I.unwind]
+        order = []; seen = set()
+        stack = [('entry', iter(succ.get('entry', [])))]; seen.add('entry')
+        while stack:
+            b, it = stack[-1]
+            adv = False
+            for n in it:
+                if n not in seen and n in reach:
+                    seen.add(n); stack.append((n, iter(succ.get(n, [])))); adv = True; break
+            if not adv:
+                order.append(b); stack.pop()
+        order.reverse()
+        return [(bn, f.bmap[bn]) for bn in order]
+
     def callees(s, f):
         out = set(); reach = s.reachable_blocks(f)
         for bn, ins in f.blocks:
@@ -217,8 +241,7 @@ class Cgen:
         rt = resolve(f.ret, m)
         retzero = 'return;' if isvoid else ('return (%s){0};' % s.ctype(f.ret) if isinstance(rt, (StructT, ArrT)) else 'return (%s)0;' % s.ctype(f.ret))
         reach = s.reachable_blocks(f)
-        for bn, ins in f.blocks:
-            if bn not in reach: continue
+        for bn, ins in s.rpo_blocks(f, reach):
             body.append('L_%s: ;' % cname(bn))
             for I in phis.get(bn, []):
                 body.append('  v_%s = v_%s_in;' % (cname(I.dest), cname(I.dest)))
@@ -232,6 +255,15 @@ class Cgen:
                 except Exception as e:
                     raise RuntimeError('in %s: %s\n  %s: %s' % (f.name, I.text, type(e).__name__, e))
                 if c: body.append('  ' + c)
+        # drop allocas that only the cut (throw) blocks used: fewer addressed objects for cbmc
+        joined = '\n'.join(body)
+        keep = []
+        for ln in body:
+            mo = re.match(r'\s+__attribute__\(\(aligned\(16\)\)\) \S+ a_(\w+?)(\[\d+\])?; (v_\w+) = ', ln)
+            if mo and len(re.findall(r'\b%s\b' % re.escape(mo.group(3)), joined)) <= 1:
+                decls.pop(mo.group(3), None); continue
+            keep.append(ln)
+        body = keep
         o = [s.proto(f) + ' {']
         for k, v in decls.items(): o.append('  %s %s;' % (v, k))
         o.append('  goto L_entry;')
@@ -304,9 +336,9 @@ class Cgen:
                     lo, hi = '-0x1p%d' % (n - 1), '0x1p%d' % (n - 1)
                     chk = 'VF_CONV_CHECK((%s) > (%s - 1.0) && (%s) < %s, "float->int%d conversion in range");' % (A, lo, A, hi, n) if n < 53 else \
                           'VF_CONV_CHECK((%s) >= %s && (%s) < %s, "float->int%d conversion in range");' % (A, lo, A, hi, n)
-                    return '%s %s = (%s)(%s)%s;' % (chk, D, ct, s.sctype(I.to), A)
+                    return '%s %s = (%s)(%s)%s; VF_CONV_REC((%s)%s);' % (chk, D, ct, s.sctype(I.to), A, s.sctype(I.to), D)
                 chk = 'VF_CONV_CHECK((%s) > -1.0 && (%s) < 0x1p%d, "float->uint%d conversion in range");' % (A, A, n, n)
-                return '%s %s = (%s)%s;' % (chk, D, ct, A)
+                return '%s %s = (%s)%s; VF_CONV_REC(%s);' % (chk, D, ct, A, D)
             if op in ('fpext', 'fptrunc'): return '%s = (%s)%s;' % (D, ct, A)
             if op == 'bitcast':
                 if isinstance(r1, FltT) and isinstance(r2, IntT): return '%s = %s(%s);' % (D, 'vf_d2bits' if r1.k == 'double' else 'vf_f2bits', A)
